@@ -101,7 +101,7 @@ func init() {
 	core.Register(&core.Prop{
 		ID:    "C16",
 		Level: "exploration",
-		Rule: "directories with 0,1,2,3,10,300,1200 children of mixed kinds (ground truth = the children the harness created) are presented through mem, keyvalue over a plain Store, mount (children that are mount points), a Sub view, the cache (full and minimal store), the tar FS (default and minimal destination) and os.FS; the by-name listing must contain each child once, sorted, agreeing with Stat; a directory handle is read with page-size sequences (1,2,N-1,N,N+1,10^9, MaxInt and MinInt also on a handle that has been read before, mixed with 0 and -1, random) and checked against the fs.ReadDirFile contract; listing a regular file must fail with ErrNotDir. " +
+		Rule: "directories with 0,1,2,3,10,300,1200 children of mixed kinds (names incl. upper/lower case, '_', '^', dots, spaces, backslash, non-ASCII; names sharing letters with the mount path) (ground truth = the children the harness created) are presented through mem, keyvalue over a plain Store, mount (children that are mount points), a file system mounted at a two-element mount point, a Sub view, the cache (full and minimal store), the tar FS (default and minimal destination) and os.FS; the by-name listing must contain each child once, sorted, agreeing with Stat; a directory handle is read with page-size sequences (1,2,N-1,N,N+1,10^9, MaxInt and MinInt also on a handle that has been read before, mixed with 0 and -1, random) and checked against the fs.ReadDirFile contract; listing a regular file must fail with ErrNotDir. " +
 			"Non-trivial: a paged session over a directory with >=2 children that took >=2 pages; distinct by (subject, size, page sequence)",
 		Assumptions: []string{"directories are not mutated between pages", "for a child that is a mount point only name and kind are compared"},
 		NumCases:    func(env *core.Env) int { return len(c16cases(env)) },
@@ -158,7 +158,7 @@ func c16run(env *core.Env, idx int) core.CaseResult {
 		default:
 			c.size = i % 13
 		}
-		if special := []string{".hidden", "..dots", "sp ace", `back\slash`, "col:on", "ünï", "-dash", "x.y.z"}; cs.N >= 3 && i < len(special) && i < cs.N-1 && !c.mount {
+		if special := []string{".hidden", "B", "a", "_c", "sp ace", "README", `back\slash`, "col:on", "ünï", "-dash", "x.y.z", "Zeta", "go.main", "Go.main", "..dots", "^caret", "den", "pm", "e", "p"}; cs.N >= 3 && i < len(special) && i < cs.N-1 && !c.mount {
 			c.name = special[i] // names a listing must not drop or mangle
 		}
 		want = append(want, c)
